@@ -149,12 +149,16 @@ def replay(rp):
     tmp = tempfile.mkdtemp(prefix="replay_", dir=vlib.BUILD)
     try:
         argv = list(rp.get("argv") or [])
+        if lab.get("kind") == "indentcfg":
+            cf = os.path.join(tmp, "i.yaml")
+            open(cf, "w").write(yaml.safe_dump(lab["indent"]))
+            argv += ["-c", cf]
         opts = rp.get("derived_options") or lab.get("options")
         if opts:
             cf = os.path.join(tmp, "o.yaml")
             open(cf, "w").write(yaml.safe_dump({"rule": {lab.get("rule") or rp.get("rule"): opts}}))
             argv += ["-c", cf]
-        if lab.get("kind") == "variant":
+        if lab.get("variant"):
             lines = corpus.read_lines(path)
             if lines and lines[-1] == "":
                 lines = lines[:-1]
